@@ -728,11 +728,25 @@ func parent(ch *Check, tier, only string, seed int64, listFailing bool) int {
 	exit := 0
 	seen := map[string]bool{}
 	printed := 0
+	var more *os.File
 	for _, v := range fresh {
 		if seen[v.Key] {
 			continue
 		}
 		seen[v.Key] = true
+		exit = 1
+		if len(seen) > 300 {
+			// beyond the first 300 only the keys are kept (one line each)
+			if more == nil {
+				os.MkdirAll(rdir, 0o755)
+				more, _ = os.Create(filepath.Join(rdir, "more-violations.jsonl"))
+			}
+			if more != nil {
+				b, _ := json.Marshal(map[string]any{"key": v.Key, "what": v.What})
+				more.Write(append(b, '\n'))
+			}
+			continue
+		}
 		os.MkdirAll(rdir, 0o755)
 		p := filepath.Join(rdir, Hash(v.Key)+".json")
 		b, _ := json.MarshalIndent(map[string]any{"property": ch.ID, "tier": tier, "key": v.Key, "what": v.What,
